@@ -49,6 +49,7 @@ let event_sx x = match Sx.list x with
   | [Sx.A "send"; t; body; ok] -> EAppSend (bytes_sx t, pairs_sx body, bool_sx ok)
   | [Sx.A "flush"] -> EFlush
   | [Sx.A "stop"] -> EStop
+  | [Sx.A "resettime"] -> EResetSeqTime
   | _ -> failwith ("event: " ^ Sx.to_string x)
 
 let sx_facts (f : mfacts) =
